@@ -53,10 +53,10 @@ def innermost_smoothmath_frame(tb):
 def call(f) -> Out:
     try:
         v = f()
-    except DomainError:
-        return Out(DOM)
-    except CoordinateMissing:
-        return Out(MISS)
+    except DomainError as ex:
+        return Out(DOM, detail=str(ex)[:300])
+    except CoordinateMissing as ex:
+        return Out(MISS, detail=str(ex)[:300])
     except OverflowError as ex:
         return Out(OVF, detail=str(ex))
     except MemoryError:
